@@ -337,7 +337,7 @@ def run(ctx):
     if not f:
         ctx.missing("C05.header", "BBoxZ::grow_from_shape")
     else:
-        ps, _ = util.run_fn(F, f)
+        ps, _ = util.run_fn(F, f, summarise_predicates=True)      # has_m / has_z stay atoms here (their tables are C19.pred)
         site = ctx.site_of(F, f["def"])
         combos = set()
         good = bool(ps)
@@ -403,11 +403,8 @@ def run(ctx):
             st = W.stores(p)
             for d in ('m', 'z'):
                 zeroed = (W.header_field, 'bbox', 'max', d) in st and (W.header_field, 'bbox', 'min', d) in st
-                eqmax = [v for t, v in p.cons if t[0] == 'bin' and t[1] == 'Eq' and t[2] == wm.field_load(W.header_field, 'bbox', 'max', d)
-                         and t[3] == ('f64', '-1.7976931348623157e308')]
-                eqmin = [v for t, v in p.cons if t[0] == 'bin' and t[1] == 'Eq' and t[2] == wm.field_load(W.header_field, 'bbox', 'min', d)
-                         and t[3] == ('f64', '1.7976931348623157e308')]
-                both = bool(eqmax) and eqmax[0] != 0 and bool(eqmin) and eqmin[0] != 0
+                both = absint.holds(p.cons, '==', wm.field_load(W.header_field, 'bbox', 'max', d), ('f64', '-1.7976931348623157e308')) and \
+                    absint.holds(p.cons, '==', wm.field_load(W.header_field, 'bbox', 'min', d), ('f64', '1.7976931348623157e308'))
                 if zeroed:
                     seen_dims.add(d)
                     vals = [st[(W.header_field, 'bbox', mm, d)] for mm in ('max', 'min')]
